@@ -22,6 +22,11 @@ class Ctx:
         self.unroll = 0
 
     def oblige(self, st, name, goal, node=None, props=None, kind=None):
+        if self.c.split_and and z3.is_and(goal) and 2 <= goal.num_args() <= 8:
+            # one verification condition per conjunct: conjunctive goals over strings were measurably harder for every back end
+            for k, g in enumerate(goal.children()):
+                self.oblige(st, '%s&%d' % (name, k), g, node, props, kind or name.split('#')[0].split(':')[0].split('@')[0])
+            return
         base = '%s/%s' % (self.c.name, name)
         k = self.names.get(base, 0); self.names[base] = k + 1
         if k: base = '%s~%d' % (base, k)
@@ -72,7 +77,11 @@ class Exec:
         n0 = len(s2.pc)
         if guard is not None: s2.pc.append(guard)
         n1 = len(s2.pc)
-        v = fn(s2)
+        if qvars: lib.QUANT_DEPTH[0] += 1
+        try:
+            v = fn(s2)
+        finally:
+            if qvars: lib.QUANT_DEPTH[0] -= 1
         self.merge_heap(s2, st)
         extra = s2.pc[n1:]
         if extra:
@@ -223,8 +232,14 @@ class Exec:
         if isinstance(op, ast.Mod):
             self.may_raise(st, 'ZeroDivisionError', e, b.term == 0, b.term != 0)
             return VInt(lib.pymod(a.term, b.term))
+        if isinstance(op, ast.BitOr):
+            r = z3.Function('py_bitor', z3.IntSort(), z3.IntSort(), z3.IntSort())(a.term, b.term)
+            st.assume(z3.Implies(z3.And(a.term >= 0, b.term >= 0), z3.And(r >= a.term, r >= b.term, r <= a.term + b.term)))
+            return VInt(r)
         if isinstance(op, ast.LShift):
             self.may_raise(st, 'ValueError', e, b.term < 0, b.term >= 0, 'negative shift count')
+            bs = z3.simplify(b.term)
+            if z3.is_int_value(bs) and 0 <= bs.as_long() <= 64: return VInt(a.term * (2 ** bs.as_long()))
             p2 = lib.POW2(b.term); st.assume(p2 >= 1)
             return VInt(a.term * p2)
         raise ToolLimit('binop %s (line %s)' % (type(op).__name__, e.lineno))
@@ -423,12 +438,12 @@ class Exec:
                 return ex.ev(e.args[0], s0)
             if n in ('forall', 'exists'):
                 return self.quant(n, e, st)
-            if n in ('forall_ref', 'forall_str', 'forall_int', 'exists_str', 'exists_int'):
+            if n in ('forall_ref', 'forall_str', 'forall_int', 'exists_str', 'exists_int', 'exists_bytes', 'forall_bytes'):
                 lam = e.args[-1]; name = lam.args.args[0].arg
-                srt = z3.StringSort() if n.endswith('_str') else z3.IntSort()
+                srt = z3.StringSort() if n.endswith('_str') or n.endswith('_bytes') else z3.IntSort()
                 x = z3.Const('%s!q%d' % (name, next(core_fresh)), srt)
                 env2 = dict(st.env)
-                env2[name] = VRef(x, e.args[0].value) if n == 'forall_ref' else (VStr(x, TBytes() if len(e.args) > 1 and getattr(e.args[0], 'value', None) == 'bytes' else TStr()) if n.endswith('_str') else VInt(x))
+                env2[name] = VRef(x, e.args[0].value) if n == 'forall_ref' else (VStr(x, TBytes()) if n.endswith('_bytes') else (VStr(x, TStr()) if n.endswith('_str') else VInt(x)))
                 body = self.sub(st, lambda s2: truthy(self.ev(lam.body, s2)), env=env2, qvars=[x])
                 return VBool(z3.ForAll([x], body) if n.startswith('forall') else z3.Exists([x], body))
             if n == 'implies':
@@ -471,7 +486,7 @@ class Exec:
             if f.name not in lib.NONE_OK: args = [self.unopt(a, st, e) for a in args]
             return lib.BUILTINS[f.name](self, st, e, *args, **kwargs)
         if f.kind == 'libmethod':
-            if isinstance(f.recv, VStr): args = [self.unopt(a, st, e) for a in args]
+            if isinstance(f.recv, VStr) and f.name != 'format': args = [self.unopt(a, st, e) for a in args]
             ret, newrecv = lib.call_method(self, st, e, f.recv, f.name, args, kwargs)
             if newrecv is not None:
                 if self.spec_mode: raise ToolLimit('mutation inside a specification')
@@ -508,6 +523,15 @@ class Exec:
         return a
 
     def call(self, c, args, kwargs, st, node, awaited=False):
+        if c.variants:
+            # a dynamically typed parameter: the contract to use is chosen by the static type of the argument at this call site
+            pname, table = c.variants
+            names = list(c.params)
+            a = kwargs.get(pname, args[names.index(pname)] if names.index(pname) < len(args) else None)
+            for pred, target in table:
+                if pred(a): c = CONTRACTS[target]; break
+            else:
+                raise ToolLimit('no variant of %s for %s (line %s)' % (c.name, type(a).__name__, getattr(node, 'lineno', '?')))
         self.ctx.called.add(c.name)
         if c.suspends and not self.spec_mode:
             self.sched_point(st, node, c)
@@ -571,6 +595,8 @@ class Exec:
         v = ex.ev(tree, s)
         self.merge_heap(s, st)
         st.pc += s.pc[n0:]        # type-invariant facts discovered while evaluating the spec
+        if lib.BRIDGE:
+            st.pc += lib.BRIDGE; del lib.BRIDGE[:]
         return truthy(v)
 
     def spec_value(self, text, st, env_extra=None, result=None):
@@ -736,6 +762,9 @@ class Exec:
         outs = m(s, st)
         outs += self.ctx.raises
         self.ctx.raises = saved
+        if lib.BRIDGE:
+            for o in outs: o.state.pc += lib.BRIDGE
+            del lib.BRIDGE[:]
         return outs
 
     def st_Pass(self, s, st): return [Outcome('normal', st)]
@@ -970,7 +999,9 @@ class Exec:
                         for exc in iter_raises:
                             sx = stt.fork(); sx.trace.append('L%d: iterator raises %s' % (s.lineno, exc)); outs.append(Outcome('raise', sx, exc=exc))
                         stt.env['i%d_' % k_id] = VInt(j)
-                        self.assign(s.target, wrap(z3.Select(setup.arr, j), setup.elem), stt)
+                        item = wrap(z3.Select(setup.arr, j), setup.elem)
+                        stt.pc += wf(item)
+                        self.assign(s.target, item, stt)
                         for o in self.block(s.body, stt):
                             if o.kind in ('normal', 'continue'): nxt.append(o.state)
                             elif o.kind == 'break': outs.append(Outcome('normal', o.state))
@@ -1016,9 +1047,19 @@ class Exec:
         for n in mod_names:
             if n in h.env and not isinstance(h.env[n], (VFunc, VMod)):
                 v = fresh(n, h.env[n].ty); h.pc += wf(v); alloc_bound(h, v); h.env[n] = v
+        precise = self.precise_field_stores(s, mod_names, st)
         for fld in mod_fields:
             for key in list(h.heap):
-                if key[1] == fld: havoc_heap_key(h, key)
+                if key[1] != fld: continue
+                refs = precise.get(fld)
+                if refs is not None and all(is_subclass(r.cls, key[0]) or is_subclass(key[0], r.cls) for r in refs):
+                    # every store to this field inside the loop goes through a loop-invariant receiver: only those objects change
+                    arrs = list(h.heap[key])
+                    for r in refs:
+                        arrs = [z3.Store(a, r.term, z3.FreshConst(a.sort().range(), 'H_%s_%s' % key)) for a in arrs]
+                    h.heap[key] = tuple(arrs)
+                else:
+                    havoc_heap_key(h, key)
         for m in spec.get('modifies', []): self.havoc(m, h, h.env)
         for g in spec.get('modifies_ghost', []):
             if g in h.ghost: h.ghost[g] = fresh('hv_' + g, h.ghost[g].ty)
@@ -1046,7 +1087,9 @@ class Exec:
             for exc in iter_raises:      # the iterator itself may fail between two items
                 sx = b.fork(); sx.trace.append('L%d: iterator raises %s' % (s.lineno, exc)); outs.append(Outcome('raise', sx, exc=exc))
             b.assume(i.term < setup.n, 'L%d: loop body' % s.lineno)
-            self.assign(s.target, wrap(z3.Select(setup.arr, i.term), setup.elem), b)
+            item = wrap(z3.Select(setup.arr, i.term), setup.elem)
+            b.pc += wf(item)               # type invariant of the element (bytes: every code point <= 255)
+            self.assign(s.target, item, b)
         else:
             saved = self.ctx.raises; self.ctx.raises = []
             b.assume(truthy(self.ev(cond, b)), 'L%d: loop body (%s true)' % (s.lineno, src(cond)))
@@ -1068,6 +1111,28 @@ class Exec:
             else:
                 outs.append(o)
         return outs
+
+    def precise_field_stores(self, loop, mod_names, st):
+        """field -> [receiver refs] when every assignment `recv.field = ...` / `recv.field += ...` in the loop has a receiver that is a
+        plain name not assigned in the loop (so it denotes the same object throughout); None when some store is not of that shape"""
+        out = {}
+        bad = set()
+        for n in ast.walk(loop):
+            tg = []
+            if isinstance(n, ast.Assign): tg = n.targets
+            elif isinstance(n, (ast.AugAssign, ast.AnnAssign)): tg = [n.target]
+            for t in tg:
+                for x in ast.walk(t):
+                    if isinstance(x, ast.Attribute) and isinstance(x.ctx, ast.Store):
+                        if isinstance(x.value, ast.Name) and x.value.id not in mod_names and isinstance(st.env.get(x.value.id), VRef):
+                            out.setdefault(x.attr, []).append(st.env[x.value.id])
+                        else: bad.add(x.attr)
+            if isinstance(n, ast.Call) and isinstance(n.func, ast.Attribute) and n.func.attr in lib.MUTATORS and isinstance(n.func.value, ast.Attribute):
+                bad.add(n.func.value.attr)
+            if isinstance(n, ast.Call):
+                bad.add('*calls*')
+        # calls inside the loop may modify fields through contracts: those are applied at the call (havoc of `modifies`), not here
+        return {k: v for k, v in out.items() if k not in bad}
 
     def modified(self, loop):
         names, fields = set(), set()
